@@ -337,6 +337,30 @@ func (eapAkaPrime *EapAkaPrime) Unmarshal(rawData []byte) error {
 					return errors.Wrapf(err, "EAP-AKA' Unmarshal(): read %s attribute/padding failed", attr.attrType)
 				}
 			}
+		default:
+			// An attribute this package does not interpret: keep its two
+			// reserved / value bytes and the rest of its value so that it is
+			// skipped by its length and re-encoded as received
+			if attr.length == 0 {
+				return errors.Errorf("EAP-AKA' Unmarshal(): %s attribute length must not be 0", attr.attrType)
+			}
+
+			reserved := make([]byte, EapAkaAttrReservedLen)
+			n, err = io.ReadFull(bufReader, reserved)
+			if n != EapAkaAttrReservedLen || err != nil {
+				return errors.Errorf("EAP-AKA' Unmarshal(): incomplete attribute %s", attr.attrType)
+			}
+			attr.reserved = binary.BigEndian.Uint16(reserved)
+
+			valLen := 4*int(attr.length) - EapAkaAttrTypeLen - EapAkaAttrLengthLen - EapAkaAttrReservedLen
+			attr.value = make([]byte, valLen)
+			n, err = io.ReadFull(bufReader, attr.value)
+			if n != valLen || (err != nil && valLen != 0) {
+				return errors.Errorf("EAP-AKA' Unmarshal(): %s attribute value length mismatch, "+
+					"expect %d bytes but got %d bytes",
+					attr.attrType, valLen, n,
+				)
+			}
 		case AT_CHECKCODE:
 			if attr.length == 0 {
 				return errors.Errorf("EAP-AKA' Unmarshal(): %s attribute length must not be 0", attr.attrType)
